@@ -17,8 +17,7 @@ META = {
     'technique': 'Coq proof (structural induction over the universal value type) on a hand-written Gallina model of '
                  'dumpers.py + regenerated hook registry + differential correspondence with the implementation',
     'design_ref': 'DESIGN.md section 4 C03',
-    'theorems': ['C03_hooks_table', 'C03_encoding', 'C03_encoding_total', 'C03_json_safe', 'C03_fresh', 'C03_z_suffix',
-                 'C03_refuted_subminute_offset'],
+    'theorems': ['C03_hooks_table', 'C03_encoding', 'C03_encoding_total', 'C03_json_safe', 'C03_fresh', 'C03_z_suffix'],
     'tables': ['CoreDumpHooks'],
     'level_text': ('Theorems proved in Coq for ALL well-formed values (any nesting, any runtime types, any annotation incl. Any), '
                    'all five key transforms and both marshal_date_time_as modes, about an executable model of _asdict_inner / '
@@ -41,7 +40,7 @@ META = {
                      'harness/impl/core_rt.py prints real objects as Gallina terms and as the canonical text compared with the model'],
     'assumptions': ['stdlib leaf functions (isoformat, UUID.hex, str(Decimal/Path/timedelta), timestamp, b64encode) are oracles: their '
                     'answers are carried in the value tokens',
-                    'the first "+00:00" of an isoformat() text is its suffix (z_safe) - violated only by sub-minute UTC offsets (finding F43)'],
+                    ],
 }
 
 XF = {None: 'XCamel', 'CAMEL': 'XCamel', 'PASCAL': 'XPascal', 'LISP': 'XLisp', 'SNAKE': 'XSnake', 'NONE': 'XNone'}
@@ -62,7 +61,7 @@ def coq_cfg(cfg):
 
 
 def subminute(v):
-    """F43 region: a datetime/time value whose UTC offset is +00:00:SS."""
+    """a datetime/time value whose UTC offset is +00:00:SS (region of the repaired finding F43, kept in the generators)."""
     if isinstance(v, dict):
         if v.get('v') == 'tok' and v.get('k') in ('datetime', 'time'):
             tz = v['x'][-1]
@@ -100,12 +99,34 @@ def make_cases(ctx):
         cfg = {'xf': XFS[ci % len(XFS)], 'dt': DTS[(ci // 2) % len(DTS)]}
         cases.append({'root': root, 'value': g.value(root), 'cfg': cfg, 'wizard': ci % 2 == 0, 'labels': labels, 'src': 'systematic'})
         ci += 1
+    # regression inputs of the repaired finding F43: sub-minute UTC offsets at several positions
+    g3 = Gen(ctx.sub_rng('f43'), {})
+    for tz in (30, 59, 1):
+        for ctxname in (None, 'list', 'dictval', 'opt', 'tuple2'):
+            for kind, x in (('datetime', [2020, 1, 1, 0, 0, 0, 0, tz]), ('time', [1, 2, 3, 0, tz])):
+                leaf = {'t': 'tok', 'k': kind}
+                ty = leaf if ctxname is None else g3.wrap(ctxname, leaf)
+                root = g3.root([ty])
+                val = g3.value(root)
+
+                def put(v):
+                    if isinstance(v, dict):
+                        if v.get('v') == 'tok' and v.get('k') == kind:
+                            v['x'] = list(x)
+                        for y in v.values(): put(y)
+                    elif isinstance(v, list):
+                        for y in v: put(y)
+                put(val)
+                if ctxname is None:
+                    val['xs'][0] = {'v': 'tok', 'k': kind, 'x': list(x)}
+                cases.append({'root': root, 'value': val, 'cfg': {'xf': None, 'dt': None}, 'wizard': False,
+                              'labels': {root['fields'][0]['name']: 'F43-regress:%s<%s>' % (ctxname, kind)}, 'src': 'regress'})
     # random class models
     r2 = ctx.sub_rng('rand')
     n = 120 if ctx.tier == 'quick' else 2500
     for j in range(n):
         g2 = Gen(r2, {'neg_timedelta': True, 'nonfinite': r2.random() < 0.3, 'extreme_dates': False,
-                      'odd_offsets': r2.random() < 0.05})
+                      'odd_offsets': r2.random() < 0.15})
         nf = r2.choice([1, 2, 3, 5])
         tys = [g2.rand_type(r2.choice([1, 2, 3])) for _ in range(nf)]
         aliases = {k: r2.choice(['Alias', 'my-key', 'x.y', 'with space', "quo'te", 'K']) + str(k) * (k > 0) for k in range(nf) if r2.random() < 0.15}
@@ -207,19 +228,13 @@ def run(ctx):
         ctx.hist('config', '%s/%s' % (c['cfg'].get('xf'), c['cfg'].get('dt')))
         ctx.hist('source', c['src'])
         bad = check_direct(c, res)
-        in_f22 = subminute(c['value'])
+        if subminute(c['value']):
+            ctx.hist('subminute_offset_cases', c['src'])
         if bad:
-            if in_f22 and ctx.is_open_region('F43-z-rewrite-subminute-offset') and bad == ['asdict(x) differs from the documented encoding']:
-                ctx.hist('known_region', 'F43-z-rewrite-subminute-offset')
-            else:
-                ctx.violation('C03 direct predicate fails: %s' % '; '.join(bad), {'kind': 'case', 'case': strip(c)})
+            ctx.violation('C03 direct predicate fails: %s' % '; '.join(bad), {'kind': 'case', 'case': strip(c)})
         if i in model:
             ctx.traces_validated += 1
-            if in_f22 and 'F43-z-rewrite-subminute-offset' in resolved:
-                # the model is faithful to the listed defect; once the implementation is repaired the
-                # region is checked by the direct predicate only (FINDING-RESOLVED is printed)
-                ctx.hist('model_skipped', 'F43 region, finding resolved')
-            elif 'show_dump' in res and model[i] != res['show_dump']:
+            if 'show_dump' in res and model[i] != res['show_dump']:
                 n_dis += 1
                 ctx.disagreements_checked += 1
                 if n_dis <= 5:
